@@ -614,10 +614,11 @@ def stream_cond(chk, fnd, bins, model, names, count):
 
 
 def stream_instr(chk, fnd, bins, model, names, count):
-    """instructions (single-match rule `ld {x: u8}`) that name local symbols declared under labels AND under constants,
-    some of them taking the address of a label, behind a `jmp` that shrinks after the first pass: the value an
-    instruction encodes is the FINAL value of the declaration lexical scoping selects, with the static-value
-    optimisation on and off (the matcher's static analysis walks the scopes on its own)."""
+    """instructions (single-match rule `ld {x: u8}`) and data directives that name local symbols declared under labels AND
+    under constants - some taking the address of a label by full name, some defined from DOTTED references to siblings
+    (`.m = .k + 1`) while a literal global carries the same name - behind a `jmp` that shrinks after the first pass:
+    what is encoded is the FINAL value of the declaration lexical scoping selects, with the static-value optimisation
+    on and off (the matcher's and the definition pass's static analyses look names up on their own)."""
     rng = chk.rng.fork("instr")
     L, C, O = (lambda k, n: ("L", k, n)), (lambda k, n, e: ("C", k, n, e)), ("O",)
     ref = lambda k, *p: ("r", k, list(p))
@@ -629,6 +630,15 @@ def stream_instr(chk, fnd, bins, model, names, count):
          ("X", ref(1, "x")), ("X", ref(0, "c", "x")), L(0, "end")],
         [L(0, "start"), ("J", ref(0, "end")), L(0, "w"), L(1, "mid"), C(2, "x", ("l", 85)), C(1, "c", ref(0, "end")), C(2, "x", ref(0, "w", "mid")),
          ("X", ref(2, "x")), ("X", ref(1, "c")), L(0, "end")],
+    ]
+    # nested constants defined from dotted references, a literal global of the local's name, the local an address
+    hand += [
+        [C(0, "k", ("l", 7)), L(0, "start"), ("J", ref(0, "end")), C(1, "m", ("+", ref(1, "k"), ("l", 1))), ("X", ref(1, "m")),
+         L(1, "k"), O, L(0, "end")],
+        [C(0, "k", ("l", 7)), L(0, "start"), ("J", ref(0, "end")), L(1, "k"), C(1, "m", ("+", ref(1, "k"), ("l", 1))), ("D", 8, ref(1, "m")),
+         ("X", ref(0, "start", "m")), L(0, "end")],
+        [C(0, "k", ("l", 7)), L(0, "start"), ("J", ref(0, "end")), L(1, "q"), C(2, "k", ref(0, "end")), C(2, "x", ref(2, "k")),
+         ("D", 8, ref(2, "x")), L(0, "end")],
     ]
     for nodes in hand:
         progs.append({"nodes": nodes, "text": G.render(nodes), "nomodel": True, "tag": "instruction naming a local (directed)"})
